@@ -35,6 +35,15 @@ def _worker_init(world_id, master, scratch, block_timeout, tier="quick"):
     _W["known"] = findings.load(world_id)
     _W["journal"] = open(os.path.join(scratch, f"w{os.getpid()}.journal"), "w")
     _W["block_timeout"] = block_timeout
+    limit = getattr(_W["world"], "WORKER_ADDRESS_SPACE", None)
+    if limit:
+        # a backstop for worlds that feed hostile input: a runaway allocation becomes a MemoryError inside the worker
+        import resource
+
+        try:
+            resource.setrlimit(resource.RLIMIT_AS, (int(limit), int(limit)))
+        except (ValueError, OSError):
+            pass
 
 
 def _agg_new():
